@@ -143,6 +143,7 @@ func runC11(p *Prog, r *Report) {
 	}
 	c11Codecs(p, r)
 	c11Serve(p, r)
+	c11FreshCookie(p, r)
 	c11GetBackend(p, r)
 }
 
@@ -218,6 +219,20 @@ func c11Codecs(p *Prog, r *Report) {
 				}
 			}
 			r.Check(uses, "C11.R2", "stickycookie.(*"+tn+").FindURL compares through areURLEqual", p.FuncPos(fu), "ok", "the two-way codec does not compare through the shared comparator")
+			// what is issued must parse back to the same {Scheme,Host,Path}: the comparator url.Parse()s the cookie
+			// text, so the text has to be the URL's own encoding (u.String()), not a concatenation of decoded fields
+			// (an escaped path such as /a%2Fb or /%25 would not survive)
+			if get := p.MethodOf(n, "Get"); get != nil && get.Blocks != nil && len(get.Params) >= 2 {
+				enc := false
+				for _, c := range reachableCalls(p, get) {
+					if ccIs(c.Common(), "net/url", "URL.String") && len(c.Common().Args) == 1 && stripConv(c.Common().Args[0]) == ssa.Value(get.Params[1]) {
+						enc = true
+					}
+				}
+				fields := urlFieldsRead(get)
+				r.Check(enc && len(fields) == 0, "C11.R2", "stickycookie.(*"+tn+").Get encodes the server URL with its own String()", p.FuncPos(get), "raw.String() is what is encoded; no URL field is read to build the text",
+					fmt.Sprintf("the cookie text is not (only) built from raw.String() (String() used: %v, fields read: %v): the comparator parses the text back with url.Parse, so a server URL with an escaped path gets a cookie that never matches", enc, fields))
+			}
 		}
 	}
 }
@@ -267,6 +282,54 @@ func c11Serve(p *Prog, r *Report) {
 			r.Check(len(cand) > 0 && sameStringSet(cand, selL), "C11.R3", sn+": the cookie is matched against the pool the selection draws from", p.InstrPos(getB),
 				"both come from "+strings.Join(setKeys(cand), ","), "the candidate list given to the cookie lookup comes from {"+strings.Join(setKeys(cand), ",")+"} while the normal selection draws from {"+strings.Join(setKeys(selL), ",")+
 					"}: a server known to only one of them gets a cookie that is never honoured, or keeps being pinned after it left the pool")
+		}
+		// the candidate list is the whole pool: when it is built from the receiver's own server slice, every
+		// record contributes (no record is skipped, e.g. for its weight): a drained member still owns its cookie
+		if tn == "RoundRobin" {
+			if sv := p.MethodOf(t, "Servers"); sv != nil && sv.Blocks != nil {
+				r.Fn(FName(sv))
+				okAll, why := false, "no loop over the server slice that collects each record's URL"
+				for _, b := range sv.Blocks {
+					for _, in := range b.Instrs {
+						ia, ok := in.(*ssa.IndexAddr)
+						if !ok {
+							continue
+						}
+						if _, isSl := ia.X.Type().Underlying().(*types.Slice); !isSl {
+							continue
+						}
+						u, ok := stripConv(ia.X).(*ssa.UnOp)
+						if !ok {
+							continue
+						}
+						if _, _, base, ok := fieldOf(u.X); !ok || base != ssa.Value(sv.Params[0]) {
+							continue
+						}
+						// the collecting instruction: a store into / append onto the result in the same loop
+						loop := loopBlocks(ia.Block())
+						for lb := range loop {
+							for _, x := range lb.Instrs {
+								collect := false
+								if st, ok := x.(*ssa.Store); ok {
+									if oa, ok := st.Addr.(*ssa.IndexAddr); ok && oa != ia && typeIs(st.Val.Type(), "net/url", "URL") {
+										collect = true
+									}
+								}
+								if c, ok := x.(*ssa.Call); ok {
+									if bi, ok := c.Common().Value.(*ssa.Builtin); ok && bi.Name() == "append" {
+										collect = true
+									}
+								}
+								if collect {
+									okAll, why = fullSliceLoop(p, x, ia, func(v ssa.Value) bool { return v == stripConv(ia.X) })
+								}
+							}
+						}
+					}
+				}
+				r.Paths++
+				r.Check(okAll, "C11.R3", "roundrobin.(*RoundRobin).Servers: lists every pool member", p.FuncPos(sv), "every record of the server slice contributes its URL (full loop, no skip)", why+": a member missing from the list (e.g. one drained to weight 0) loses its sticky clients although it is still in the pool")
+			}
 		}
 		// no return / error response between the lookup and (selection | downstream)
 		stop := func(in ssa.Instruction) bool { return in == ssa.Instruction(sel) || in == down }
@@ -372,6 +435,82 @@ func c11Serve(p *Prog, r *Report) {
 		r.Check(okArg && okStick, "C11.R3", sn+": a fresh cookie for the chosen server is issued before forwarding", p.InstrPos(stick), "StickBackend(<URL returned by the selection>, w) is passed on every unpinned path with sticky sessions configured",
 			"on the normally balanced path the affinity cookie is not (always) issued for the server the selection returned, on the client's writer, before the request is handed downstream")
 	}
+}
+
+// c11FreshCookie: the value of the cookie issued by StickBackend is computed for THIS call by the codec's
+// Get(backend) (directly or through helpers all of whose returns are such a call): codecs may embed the
+// issue time (AES with a TTL), so a value computed earlier is an already-ageing — eventually expired — cookie.
+func c11FreshCookie(p *Prog, r *Report) {
+	ss := p.Named("roundrobin", "StickySession")
+	if ss == nil {
+		r.Anchor("C11.R3", "roundrobin.StickySession", "type not found")
+		return
+	}
+	sb := p.MethodOf(ss, "StickBackend")
+	if sb == nil || sb.Blocks == nil {
+		r.Anchor("C11.R3", "roundrobin.(*StickySession).StickBackend", "not found")
+		return
+	}
+	r.Fn(FName(sb))
+	var isGet func(fn *ssa.Function, v ssa.Value, bi int, d int) bool
+	isGet = func(fn *ssa.Function, v ssa.Value, bi int, d int) bool {
+		if d > 3 {
+			return false
+		}
+		switch x := stripConv(v).(type) {
+		case *ssa.Phi:
+			for _, e := range x.Edges {
+				if !isGet(fn, e, bi, d+1) {
+					return false
+				}
+			}
+			return len(x.Edges) > 0
+		case *ssa.Call:
+			cc := x.Common()
+			if cc.IsInvoke() {
+				return cc.Method.Name() == "Get" && len(cc.Args) == 1 && stripConv(cc.Args[0]) == ssa.Value(fn.Params[bi]) && typeIs(cc.Value.Type(), modPath+"/roundrobin/stickycookie", "CookieValue")
+			}
+			g := cc.StaticCallee()
+			if g == nil || !p.InModule(g) || g.Blocks == nil {
+				return false
+			}
+			j := -1
+			for i, a := range cc.Args {
+				if stripConv(a) == ssa.Value(fn.Params[bi]) {
+					j = i
+				}
+			}
+			if j < 0 {
+				return false
+			}
+			n := 0
+			for _, ret := range Returns(g) {
+				n++
+				if !isGet(g, ReturnOperand(ret, 0), j, d+1) {
+					return false
+				}
+			}
+			return n > 0
+		}
+		return false
+	}
+	n := 0
+	for _, b := range sb.Blocks {
+		for _, in := range b.Instrs {
+			st, ok := in.(*ssa.Store)
+			if !ok {
+				continue
+			}
+			nt, f, _, ok := fieldOf(st.Addr)
+			if !ok || nt == nil || f != "Value" || nt.Obj().Name() != "Cookie" {
+				continue
+			}
+			n++
+			r.Check(isGet(sb, st.Val, 1, 0), "C11.R3", "roundrobin.(*StickySession).StickBackend: the issued cookie value is computed now by the codec", p.InstrPos(st), "Value = cookieValue.Get(backend) of this call",
+				"the cookie value is not (on every path) the result of cookieValue.Get(backend) made in this call (cached / precomputed): a codec that embeds the issue time hands out ageing or expired cookies, new clients never stick")
+		}
+	}
+	r.Floor("C11.R3", n, 1, "cookie value stores in StickBackend")
 }
 
 func c11GetBackend(p *Prog, r *Report) {
@@ -666,3 +805,7 @@ func poolLabelsOfValue(p *Prog, fn *ssa.Function, v ssa.Value, d int) map[string
 	}
 	return map[string]bool{"?": true}
 }
+
+
+// reachableCalls: the call instructions of fn itself (helpers are not followed: Get is a leaf).
+func reachableCalls(p *Prog, fn *ssa.Function) []ssa.CallInstruction { return Calls(fn) }
